@@ -974,9 +974,11 @@ def split_streams(g, backend, id2node_path):
     return impl, impl_exp, model, want
 
 
-def run_one(exe, g, backend, work):
+def run_one(exe, g, backend, work, other=None):
+    """other = back end of a second file the harness keeps open and reads before every command (None: one file only)"""
     impl, impl_exp, model, want = split_streams(g, backend, None)
-    il, outcome = vlib.run_impl(exe, "\n".join(impl) + "\n", cwd=work, timeout=900)
+    env = {"C11_OTHER": "%s:%s" % (os.path.join(work, "c11_other_%s.cgns" % other), other)} if other else None
+    il, outcome = vlib.run_impl(exe, "\n".join(impl) + "\n", cwd=work, timeout=900, env=env)
     ml = vlib.run_model("c11", "\n".join(model) + "\n")
     by = {}
     at_problems = []
@@ -1083,7 +1085,10 @@ def run(ck):
         if os.path.exists(p):
             os.unlink(p)
         g = gen_scenario(seed_rng, tab, big, fname)
-        fails, divs, impl, il, outcome, known = run_one(exe, g, backend, ck.work)
+        # every other scenario runs with a second file (of the OTHER back end) open and read before every command
+        other = ({"adf": "hdf5", "hdf5": "adf"}[backend] if backend in ("adf", "hdf5") else None) if (j + (0 if backend == "adf" else 1)) % 2 == 0 else None
+        dist["with_other_file_open"] = dist.get("with_other_file_open", 0) + (1 if other else 0)
+        fails, divs, impl, il, outcome, known = run_one(exe, g, backend, ck.work, other)
         for key, wit in known.items():
             known_seen.setdefault(key, {"backend": backend, "script": impl[: wit["at"] + 1], "cmd": wit["cmd"], "got": wit["got"]})
         dist["scenarios"] += 1
@@ -1113,7 +1118,8 @@ def run(ck):
             gen_problems.append({"backend": backend, "scenario": j, "detail": gp[0]})
         for f in real[:1]:
             found.append({"backend": backend, "scenario": label, "failure": f, "script": impl[: f["at"] + 1] if isinstance(f.get("at"), int) else impl,
-                          "outcome": outcome})
+                          "outcome": outcome, "other_file_open": other,
+                          "note": ("a second file (%s) is open read-only and read (cg_nbases) before every command: C11_OTHER=<path>:%s" % (other, other)) if other else None})
         for d in divs[:3]:
             d = dict(d); d["backend"] = backend
             all_divs.append(d)
@@ -1203,7 +1209,9 @@ def replay(ck, path):
     script = w.get("script") or (w.get("failure") or {}).get("script")
     if not script:
         print("replay names a broken obligation/correspondence, no input to run:", json.dumps(r)[:800]); return 1
-    il, outcome = vlib.run_impl(exe, "\n".join(script) + "\n", cwd=ck.work, timeout=300)
+    oth = w.get("other_file_open")
+    env = {"C11_OTHER": "%s:%s" % (os.path.join(ck.work, "c11_other_%s.cgns" % oth), oth)} if oth else None
+    il, outcome = vlib.run_impl(exe, "\n".join(script) + "\n", cwd=ck.work, timeout=300, env=env)
     f = w.get("failure", {})
     last = il[-1] if il else None
     fails = outcome != "ok" or (f.get("got") is not None and last == f.get("got"))
